@@ -231,7 +231,7 @@ func typeTags(e influxql.Expr) {
 type bitset []uint64
 
 func newBits(n int) bitset { return make(bitset, (n+63)/64) }
-func (b bitset) set(i int)  { b[i/64] |= 1 << (i % 64) }
+func (b bitset) set(i int) { b[i/64] |= 1 << (i % 64) }
 func (b bitset) has(i int) bool {
 	return b[i/64]&(1<<(i%64)) != 0
 }
